@@ -83,6 +83,7 @@ def main():
     ap.add_argument('--jobs', type=int, default=None)
     ns = ap.parse_args()
     prop_id = ns.prop.upper()
+    os.environ['VERIF_TIER'] = ns.tier          # inherited by the spawned workers: generators may size up in 'thorough'
     try:
         seed = int(os.environ.get('VERIF_SEED', '1'))
     except ValueError:
